@@ -12,6 +12,7 @@ import (
 	"os"
 	"os/exec"
 	"path/filepath"
+	"runtime"
 	"runtime/debug"
 	"sort"
 	"strconv"
@@ -136,6 +137,7 @@ func Main(id, level, rule string, body func(r *Run)) {
 			}
 		}
 	}
+	go memoryWatchdog(r)
 	body(r)
 	if r.childPhase != "" {
 		// a child whose phase was never reached: infrastructure error
@@ -147,6 +149,32 @@ func Main(id, level, rule string, body func(r *Run)) {
 
 // ChildPhase is the Parallel phase this process is a worker of ("" in the parent).
 func (r *Run) ChildPhase() string { return r.childPhase }
+
+// memoryWatchdog stops a process whose memory runs away (a changed tree can turn a
+// tree walk into an endless one) before the kernel's OOM killer takes the machine:
+// a worker dies with a message (its parent attributes the death to the journalled
+// case, i.e. a crash-class violation); the main process exits 2.
+func memoryWatchdog(r *Run) {
+	limit := uint64(24) << 30
+	if g := os.Getenv("VERIF_MEM_GB"); g != "" {
+		if n, err := strconv.Atoi(g); err == nil && n > 0 {
+			limit = uint64(n) << 30
+		}
+	}
+	var ms runtime.MemStats
+	for {
+		time.Sleep(500 * time.Millisecond)
+		runtime.ReadMemStats(&ms)
+		if ms.Sys > limit {
+			if r.childPhase != "" {
+				fmt.Fprintf(os.Stderr, "fatal error: verif memory watchdog: %d MiB in use\n", ms.Sys>>20)
+				os.Exit(3)
+			}
+			fmt.Printf("INFRA-ERROR property=%s memory watchdog: %d MiB in use by the main process\n", r.ID, ms.Sys>>20)
+			os.Exit(2)
+		}
+	}
+}
 
 func (r *Run) Quick() bool    { return r.Tier == "quick" }
 func (r *Run) Thorough() bool { return r.Tier == "thorough" }
